@@ -108,8 +108,30 @@ Record xin := {
   xi_client_ip : str;
   xi_method : str; xi_target : str; xi_maj : N; xi_min : N;
   xi_fields : list (str * str);      (* field lines as sent, in order (name, value without outer white space) *)
-  xi_framing : N; xi_blen : N
+  xi_framing : N; xi_blen : N;
+  xi_trailers : list (str * str)     (* trailer fields sent after the last chunk *)
 }.
+
+(* net/http fixTrailer: with chunked framing the Trailer field leaves the header map; the names it announces
+   (comma separated, trimmed, canonical) become the keys of req.Trailer; Transfer-Encoding, Trailer and
+   Content-Length may not be announced (the request is rejected).  The Transport announces the keys sorted. *)
+Fixpoint str_leb (a c : str) : bool :=
+  match a, c with
+  | [], _ => true
+  | _ :: _, [] => false
+  | x :: a', y :: c' => if x <? y then true else if y <? x then false else str_leb a' c'
+  end.
+Fixpoint insert_sorted (s : str) (l : list str) : list str :=
+  match l with
+  | [] => [s]
+  | h :: t => if str_eqb s h then l else if str_leb s h then s :: l else h :: insert_sorted s t
+  end.
+Definition sort_names (l : list str) : list str := fold_right insert_sorted [] l.
+Definition announced (vs : list str) : list str :=
+  sort_names (filter (fun n => negb (is_empty n)) (flat_map (fun v => map (fun t => canon (trim_ows t)) (split_byte 44 v)) vs)).
+Definition trailer_decl (framing : N) (h : hmap) : list str :=
+  if framing =? 2 then announced (raw_values k_trailer h) else [].
+Definition bad_trailer_key (k : str) : bool := mem k [k_te; k_trailer; k_cl].
 
 Definition wants_close (maj min : N) (h : hmap) : bool :=
   if (maj =? 1) && (min =? 0) then negb (has_token (raw_values k_connection h) (b "keep-alive"))
@@ -117,7 +139,8 @@ Definition wants_close (maj min : N) (h : hmap) : bool :=
 
 Definition read_request (x : xin) : option (mreq * target) :=
   let t := parse_target (xi_target x) in
-  match escaped_path (t_path t) with
+  match (if existsb bad_trailer_key (trailer_decl (xi_framing x) (fields_to_hmap (xi_fields x))) then None
+         else escaped_path (t_path t)) with
   | None => None
   | Some ep =>
       let h0 := fields_to_hmap (xi_fields x) in
@@ -140,12 +163,12 @@ Definition read_request (x : xin) : option (mreq * target) :=
   end.
 
 (* ---------- L3: what net/http's Transport writes ---------- *)
-Record xout := { xo_method : str; xo_target : str; xo_hdr : hmap; xo_framing : N }.
+Record xout := { xo_method : str; xo_target : str; xo_hdr : hmap; xo_framing : N; xo_trailers : hmap }.
 
 Definition excluded_on_write : list str := [k_host; k_ua; k_cl; k_te; k_trailer].
 
 (* the field lines net/http writes for the forwarded request r *)
-Definition transport_hdr (x : xin) (r : mreq) : hmap :=
+Definition transport_hdr0 (x : xin) (r : mreq) : hmap :=
   let h := q_hdr r in
   let h1 := filter (fun kv => negb (mem (fst kv) excluded_on_write)) h in
   let h2 := raw_set k_host [q_host r] h1 in
@@ -164,6 +187,12 @@ Definition transport_hdr (x : xin) (r : mreq) : hmap :=
   if q_close r && negb (has_token (raw_values k_connection h5) (b "close"))
   then raw_set k_connection (b "close" :: raw_values k_connection h5) h5   (* written by the transfer writer, before the field lines *)
   else h5.
+(* ... plus the announcement of the trailer names ("Trailer: k1,k2" from req.Trailer) *)
+Definition transport_hdr (x : xin) (r : mreq) : hmap :=
+  match trailer_decl (xi_framing x) (raw_del k_host (fields_to_hmap (xi_fields x))) with
+  | [] => transport_hdr0 x r
+  | ks => raw_set k_trailer [join [44] ks] (transport_hdr0 x r)
+  end.
 
 Definition transport_out (x : xin) (t : target) (r : mreq) : option xout :=
   match escaped_path (t_path t) with
@@ -172,7 +201,9 @@ Definition transport_out (x : xin) (t : target) (r : mreq) : option xout :=
       let ruri := (if is_empty ep then [47] else ep) ++ query_suffix t in
       let tgt := if xi_mode x =? 1 then q_scheme r ++ b "://" ++ q_host r ++ ruri else ruri in
       Some {| xo_method := xi_method x; xo_target := tgt; xo_hdr := transport_hdr x r;
-              xo_framing := if xi_framing x =? 2 then 2 else if (xi_framing x =? 1) && negb (xi_blen x =? 0) then 1 else 0 |}
+              xo_framing := if xi_framing x =? 2 then 2 else if (xi_framing x =? 1) && negb (xi_blen x =? 0) then 1 else 0;
+              (* every trailer field received is written after the body (announced or not) *)
+              xo_trailers := if xi_framing x =? 2 then fields_to_hmap (xi_trailers x) else [] |}
   end.
 
 Inductive xexpect := XRefused (status : N) | XSent (o : xout) | XBadRequest.
@@ -195,7 +226,8 @@ Record xobs := {
   xb_count : N;             (* requests the origin / upstream proxy received for this exchange *)
   xb_method : str; xb_target : str; xb_proto : str;
   xb_fields : list (str * str);
-  xb_framing : N; xb_blen : N; xb_body_equal : bool
+  xb_framing : N; xb_blen : N; xb_body_equal : bool;
+  xb_trailers : list (str * str)
 }.
 Record xcase := { x_in : xin; x_obs : xobs }.
 
@@ -208,7 +240,8 @@ Definition xobs_matches (e : xexpect) (x : xin) (o : xobs) : bool :=
       str_eqb (xb_method o) (xo_method e) && str_eqb (xb_target o) (xo_target e) &&
       str_eqb (xb_proto o) (b "HTTP/1.1") &&
       hmap_eqb (obs_hmap (xb_fields o)) (xo_hdr e) &&
-      (norm_framing (xb_framing o) (xb_blen o) =? xo_framing e) && (xb_blen o =? xi_blen x) && xb_body_equal o
+      (norm_framing (xb_framing o) (xb_blen o) =? xo_framing e) && (xb_blen o =? xi_blen x) && xb_body_equal o &&
+      hmap_eqb (obs_hmap (xb_trailers o)) (xo_trailers e)
   end.
 Definition xcase_model_ok (c : xcase) : bool := xobs_matches (e2e_model (x_in c)) (x_in c) (x_obs c).
 
@@ -265,6 +298,13 @@ Definition xkey_ok (x : xin) (hin hout : hmap) (k : str) : bool :=
     else opt_vals_eqb out None || opt_vals_eqb out (Some [[48]])
   else if str_eqb k k_te then
     if xi_framing x =? 2 then opt_vals_eqb out (Some [b "chunked"]) else opt_vals_eqb out None
+  else if str_eqb k k_trailer then
+    (* the client's Trailer field belongs to its connection; towards the next hop the proxy announces exactly the
+       trailer names the client announced (it forwards the trailer fields), and nothing when there are none *)
+    match out with
+    | None => match trailer_decl (xi_framing x) hin with [] => true | _ => false end
+    | Some vs => list_str_eqb (announced vs) (trailer_decl (xi_framing x) hin) && negb (is_empty (concat vs))
+    end
   else if str_eqb k k_connection then
     (* the proxy's own connection management towards the next hop; Upgrade only when one was requested *)
     match out with
@@ -278,7 +318,7 @@ Definition xkey_ok (x : xin) (hin hout : hmap) (k : str) : bool :=
   else opt_vals_eqb out (raw_get k hin).
 
 Definition xdoc_keys : list str :=
-  [k_host; via_key; k_xff; k_xfp; k_xfh; k_xfu; k_ua; k_ae; k_cl; k_te; k_connection; k_upgrade].
+  [k_host; via_key; k_xff; k_xfp; k_xfh; k_xfu; k_ua; k_ae; k_cl; k_te; k_trailer; k_connection; k_upgrade].
 
 Definition xprop_ok (keyok : xin -> hmap -> hmap -> str -> bool) (extra : list str) (x : xin) (o : xobs) : bool :=
   let hin := raw_del k_host (fields_to_hmap (xi_fields x)) in
@@ -294,7 +334,9 @@ Definition xprop_ok (keyok : xin -> hmap -> hmap -> str -> bool) (extra : list s
     str_eqb (xb_target o) ((if xi_mode x =? 1 then b "http://" ++ sent_host x else []) ++ sent_path_query x) &&
     forallb (keyok x hin hout) (xdoc_keys ++ extra ++ keys hin ++ keys hout) &&
     (xb_blen o =? xi_blen x) && xb_body_equal o &&
-    (norm_framing (xb_framing o) (xb_blen o) =? norm_framing (xi_framing x) (xi_blen x)).
+    (norm_framing (xb_framing o) (xb_blen o) =? norm_framing (xi_framing x) (xi_blen x)) &&
+    (* the trailer fields of a chunked body arrive, per name, as sent *)
+    hmap_eqb (obs_hmap (xb_trailers o)) (if xi_framing x =? 2 then fields_to_hmap (xi_trailers x) else []).
 Definition xcase_prop_ok (c : xcase) : bool := xprop_ok xkey_ok [] (x_in c) (x_obs c).
 
 (* which parts of the predicate fail, for naming the input class of a violation *)
@@ -306,6 +348,7 @@ Definition xdiag_gen (keyok : xin -> hmap -> hmap -> str -> bool) (extra : list 
    (if str_eqb (xb_target o) ((if xi_mode x =? 1 then b "http://" ++ sent_host x else []) ++ sent_path_query x) then [] else [b "TARGET"]) ++
    (if str_eqb (xb_method o) (xi_method x) then [] else [b "METHOD"]) ++
    (if (xb_blen o =? xi_blen x) && xb_body_equal o then [] else [b "BODY"]) ++
+   (if hmap_eqb (obs_hmap (xb_trailers o)) (if xi_framing x =? 2 then fields_to_hmap (xi_trailers x) else []) then [] else [b "TRAILERS"]) ++
    (if (norm_framing (xb_framing o) (xb_blen o) =? norm_framing (xi_framing x) (xi_blen x)) then [] else [b "FRAMING"]) ++
    (if (xb_status o =? 200) && (xb_count o =? 1) then [] else [b "STATUS"]) ++
    (if negb (own_elem (xi_tag x) (raw_values via_key (after_removal hin))) then [] else [b "OWNFORWARDED"]) ++
